@@ -16,14 +16,32 @@ NSLOTS = 32
 VERIF = os.path.dirname(os.path.dirname(os.path.abspath(__file__)))
 
 
-def prepare(jobs=8, timeout=1500):
-    """Returns (spool directory, summary dict)."""
+def prepare(jobs=8, timeout=1500, twin=False):
+    """Returns (spool directory, summary dict).  twin: the suite is run twice under the determinism
+    shim - as it is, and with every PyCdlib object made always-consistent - into the sub-directories
+    'lazy' and 'always' of the spool."""
     base = '/dev/shm' if os.path.isdir('/dev/shm') and os.access('/dev/shm', os.W_OK) else None
     spool = tempfile.mkdtemp(prefix='verif-suite-', dir=base)
+    if twin:
+        info = {}
+        for mode in ('lazy', 'always'):
+            sub = os.path.join(spool, mode)
+            os.makedirs(sub)
+            info[mode] = _run_suite(sub, jobs, timeout, {'VERIF_SUITE_FREEZE': '1', **({'VERIF_SUITE_ALWAYS_CONSISTENT': '1'} if mode == 'always' else {})})
+        return spool, {'suite_run': info, 'suite_images': len(images(os.path.join(spool, 'lazy')))}
+    tail = _run_suite(spool, jobs, timeout, {})
+    return spool, {'suite_run': tail, 'suite_images': len(images(spool))}
+
+
+def _run_suite(spool, jobs, timeout, extra_env):
     e = dict(os.environ)
     e['PYTHONPATH'] = VERIF + os.pathsep + env.REPO
+    e['VERIF_REPO'] = env.REPO
     e['VERIF_SUITE_SPOOL'] = spool
     e.pop('PYCDLIB_VERIF', None)
+    for k in ('VERIF_SUITE_FREEZE', 'VERIF_SUITE_ALWAYS_CONSISTENT'):
+        e.pop(k, None)
+    e.update(extra_env)
     cmd = ['/venv/bin/python', '-m', 'pytest', '-q', '-p', 'no:cacheprovider', '-n', str(max(2, min(jobs, 8))),
            '-p', 'harness.suite_plugin', 'tests/integration/test_new.py', 'tests/integration/test_facade.py']
     try:
@@ -31,11 +49,62 @@ def prepare(jobs=8, timeout=1500):
         tail = p.stdout.decode('utf-8', 'replace').strip().splitlines()[-1:]
     except subprocess.TimeoutExpired:
         tail = ['timeout']
-    return spool, {'suite_run': tail[0] if tail else '?', 'suite_images': len(images(spool))}
+    return tail[0] if tail else '?'
 
 
 def images(spool):
     return sorted(os.path.join(spool, f) for f in os.listdir(spool) if f.endswith('.iso'))
+
+
+def sequences(spool):
+    """test id -> [sha1 of the images it mastered, in order]"""
+    out = {}
+    for f in sorted(os.listdir(spool)):
+        if f.startswith('index-'):
+            with open(os.path.join(spool, f)) as fh:
+                for line in fh:
+                    parts = line.rstrip('\n').split('\t')
+                    if len(parts) == 4:
+                        out.setdefault(parts[0], []).append(parts[1] if parts[3] == 'ok' else parts[3])
+    return out
+
+
+def run_twin_slot(prop, slot):
+    """One extra case of C06: this slot's share of the tests, image sequence of the run as it is
+    against the run on always-consistent objects."""
+    spool = os.environ.get('VERIF_SUITE_SPOOL')
+    counters = {}
+    vio = []
+    if not spool or not os.path.isdir(os.path.join(spool, 'lazy')) or not os.path.isdir(os.path.join(spool, 'always')):
+        return {'verdict': 'inconclusive', 'error': 'suite twin spool missing', 'violations': [], 'nontrivial': False, 'shape': 'suite-twin/%d' % slot,
+                'sample': None, 'counters': counters}
+    a, b = sequences(os.path.join(spool, 'lazy')), sequences(os.path.join(spool, 'always'))
+    mine = sorted(a)[slot::NSLOTS]
+    for t in mine:
+        counters['suite_images_checked'] = counters.get('suite_images_checked', 0) + len(a[t])
+        if a[t] != b.get(t):
+            got = b.get(t) or []
+            k = next((j for j in range(min(len(a[t]), len(got))) if a[t][j] != got[j]), min(len(a[t]), len(got)))
+            keep = []
+            for mode, seq in (('lazy', a[t]), ('always', got)):
+                if k < len(seq) and len(seq[k]) == 40:
+                    dst = os.path.join(VERIF, 'replays', prop, 'suite-%s-%s.iso' % (mode, seq[k][:16]))
+                    os.makedirs(os.path.dirname(dst), exist_ok=True)
+                    shutil.copyfile(os.path.join(spool, mode, seq[k] + '.iso'), dst)
+                    keep.append(dst)
+            vio.append({'key': 'suite:always-consistent-differs', 'detail': '%s: image %d mastered on always-consistent objects differs from the one the test masters as it is (%d vs %d images)' % (t, k, len(got), len(a[t])),
+                        'replay': {'property': prop, 'suite_twin': keep, 'test': t}})
+    return {'verdict': 'violated' if vio else 'held', 'violations': vio, 'nontrivial': bool(mine), 'shape': 'suite-twin/%d/%d' % (slot, len(mine)),
+            'sample': {'suite_slot': slot, 'tests': len(mine), 'first_test': mine[0] if mine else None}, 'counters': counters}
+
+
+def replay_twin(doc):
+    files = doc.get('suite_twin') or []
+    if len(files) == 2:
+        with open(files[0], 'rb') as f0, open(files[1], 'rb') as f1:
+            if f0.read() == f1.read():
+                return []
+    return [{'key': 'suite:always-consistent-differs', 'detail': doc.get('test', '?')}]
 
 
 def tests_of(spool):
